@@ -1,6 +1,8 @@
 """property -> rules mapping and the run context (facts per cfg configuration, thorough-tier matrix)."""
 import facts
 import r04_conv
+import r05_select
+import r16_frame
 import r06_validate
 import r07_cache
 import r08_toporder
@@ -49,12 +51,35 @@ def r9(ctx, prop):
     return r09_shared.run(ctx.F())
 
 
+def r5(ctx, prop):
+    rs = r05_select.run(ctx.F())
+    # per-property slice: C03 = new_npt, C05 = accelerated SS, C07 = TPD
+    want = {"C03": ("gibbs|new_npt",), "C05": ("gibbs|accelerated",), "C07": ("tpd|",)}.get(prop)
+    if want:
+        for r in rs:
+            r.instances = [i for i in r.instances if i["id"].startswith(want)]
+            r.nontrivial = {i for i in r.nontrivial if i.startswith(want)}
+            r.findings = [f for f in r.findings if any(w in f.key for w in want) or "floor" in f.key]
+    return rs
+
+
+def r16(ctx, prop):
+    rs = r16_frame.run(ctx.F())
+    want = {"C05": ("frame|",), "C18": ("spec|",)}.get(prop)
+    if want:
+        for r in rs:
+            r.instances = [i for i in r.instances if i["id"].startswith(want)]
+            r.nontrivial = {i for i in r.nontrivial if i.startswith(want)}
+            r.findings = [f for f in r.findings if any(w in f.key for w in want) or ("floor" in f.key and prop == "C05")]
+    return rs
+
+
 PROPERTY_RULES = {
     "C11": [r9, r7],
-    "C03": [r6, r4],
+    "C03": [r6, r4, r5],
     "C04": [r4],
-    "C05": [r4],
+    "C05": [r4, r5, r16],
     "C06": [r4],
-    "C07": [r4],
-    "C18": [r4],
+    "C07": [r5, r4],
+    "C18": [r4, r16],
 }
